@@ -1308,6 +1308,239 @@ def c05_catalogue(ctx):
     acc.flush()
 
 
+# chain / resonance selection under every strategy (C03 and C05 together) ------------------------------------------------------------
+# C03: "selecting a subset of chains / resonances yields exactly the corresponding partial sum" and C05: "every evaluation strategy returns
+# the same density as plain eager default evaluation" are both quantified over the model the user evaluates - and fit fractions, partial
+# wave plots (amp.partial_weight, temp_used_res, set_used_res, set_used_chains) evaluate SUB-models.  A cached / factorised strategy
+# keeps one tensor per chain and has to pair it with that chain's couplings and line shape; which chain a tensor belongs to can be
+# encoded as position in the full chain list, position in the current selection or position inside a topology group.  The structure
+# s110x makes the three differ (declaration order (BC)D, (BD)C, (BC)D, (CD)B; same number of LS couplings in every chain, so a wrong
+# pairing has matching shapes), and the group runs EVERY non-empty selection through the public selection API under every compatible
+# (preprocessor, amp_model) pair.  References, both from the plain eager default model on the same events and parameters:
+#   (i)  its density under the same selection (C05 clause);
+#   (ii) sum over helicities of |sum_{k in S} A_k|^2 with A_k = get_amp3 with only chain k selected (C03 clause).
+# Tolerance: that of the C05 density obligations (rtol 1e-9, per-event measured conditioning where p4_directly is compared, absolute floor
+# 1e-10 x mean density of the selection): same products, other association order.
+C0305_SEL_FLOAT = {"R_BD": {"float": "m"}, "R_BC2": {"float": "g"}, "R_CD": {"float": "mg"}}
+# (label, structure, floating line shapes, pairs in the quick tier, pairs in the thorough tier).  The second entry lets three of the four
+# line shapes float, so that cached_shape keeps chain 0 folded and evaluates chains 1..3 live (its two code paths under one selection).
+C0305_SEL_ENTRIES = [
+    ("s110x", "s110x", None, C05_PAIRS, C05_PAIRS),
+    ("s110x@float", "s110x", C0305_SEL_FLOAT, [("cached_shape", "cached_shape")], C05_PARAM_PAIRS),
+]
+C0305_COMBINE = [[0, 2], [1, 2], [1, 3], [2, 1, 0], [1, 2, 3], [0, 1, 2, 3]]
+
+
+def _c0305_selection(ctx, acc, label, sname, res_over, pairs, variants, n_ev, xla, short_for=None):
+    """short_for: pairs that run the short selection list only (None: every pair runs every selection)"""
+    keys = list(M.STRUCTS[sname]["chains"])
+    n = len(keys)
+    full = list(range(n))
+    base = _c05_base_rtol(sname, None)
+    ref_cfg = M.build_config(sname, chains=keys, res_over=res_over)
+    config0, amp0 = _load(ctx, ref_cfg)
+    dg0 = amp0.decay_group
+    names = M.chain_names(amp0)
+    # catalogue chain -> library chain index, through the resonance content
+    idx_of = {}
+    for ck in keys:
+        want = sorted(M.nm(sname, r) for r in _chain_res(sname, ck))
+        hit = [i for i, c in enumerate(dg0.chains) if sorted(str(r) for r in c.inner) == want]
+        assert len(hit) == 1, (ck, want, names)
+        idx_of[ck] = hit[0]
+    res_of = {idx_of[ck]: _chain_res(sname, ck) for ck in keys}
+    assert all(len(v) == 1 for v in res_of.values()), res_of
+    all_res = [res_of[i][0] for i in full]
+    topo = [M.STRUCTS[sname]["topology"][ck] for ck in sorted(keys, key=lambda c: idx_of[c])]
+    # parameters BY NAME: seeded couplings; floating masses / widths moved off their nominal values
+    params, _ = M.overlay_trainable(amp0, M.random_params(amp0, ctx.seed + 252, shape=False), M.random_params(amp0, ctx.seed + 253, shape=True), kinds=("shape",))
+    M.set_params(amp0, params)
+    ps = M.phsp(ctx, sname, n_ev, ctx.seed + 250)
+    data0 = M.cal_data(config0, sname, ps)
+    kin = [pr for pr in pairs if _recomputes_kinematics(pr)]
+    probes = [M.cal_data(config0, sname, M.ulp_perturbed(ps, j)) for j in range(C05_NPERT)] if kin else []
+    single = {}
+    for i in full:
+        dg0.set_used_chains([i])
+        single[i] = _amp3(amp0, data0)
+    hel = tuple(range(1, single[0].ndim))
+    ref_sel, ref_sum, rtol, sens, floor = {}, {}, {}, {}, {}
+    for S in M.subsets(full):
+        fs = frozenset(S)
+        dg0.set_used_chains(list(S))
+        ref_sel[fs] = np.asarray(amp0(data0), dtype=float)
+        ref_sum[fs] = np.sum(np.abs(sum(single[i] for i in S)) ** 2, axis=hel)
+        rtol[fs], sens[fs] = _c05_rtol(ref_sel[fs], [np.asarray(amp0(pd), dtype=float) for pd in probes], base)
+        floor[fs] = C01_AFLOOR * float(np.mean(ref_sum[fs]))
+    dg0.set_used_chains(full)
+    ffull = frozenset(full)
+    # the entry must be able to show a wrong pairing: topologies interleave in the library's chain order, every chain has the same number of
+    # coupling products, and exchanging any two chains' densities is visible (single-chain densities differ pairwise by > 1e-3 somewhere)
+    interleaved = any(topo[i] == topo[k] and any(topo[j] != topo[i] for j in range(i + 1, k)) for i in full for k in range(i + 2, n))
+    n_coup = [int(np.prod([len(dec.get_ls_list()) for dec in c])) for c in dg0.chains]
+    dsingle = [ref_sel[frozenset([i])] for i in full]
+    distinct = min(float(np.max(np.abs(dsingle[i] - dsingle[j]) / np.maximum(dsingle[i], dsingle[j]))) for i in full for j in range(i + 1, n))
+    acc.add("%s/nonvacuous" % label,
+            "catalogue entry is sensitive: in the library's chain order two chains of one topology are separated by a chain of another topology, all "
+            "chains have the same number of LS-coupling products, and the single-chain default densities differ pairwise (> 1e-3 relative on some event)",
+            interleaved and len(set(n_coup)) == 1 and distinct > 1e-3, 0.0,
+            {"library_chain_order": names, "topologies": topo, "coupling_products_per_chain": n_coup, "min_pairwise_max_rel_diff_of_single_chain_densities": distinct,
+             "config_dict": ref_cfg})
+
+    # the selections, each through the public API: (description, how, argument, expected chain set, in the short list)
+    # short list (quick tier, strategies that keep no per-chain tensors, see c0305_selection): every subset once through set_used_chains,
+    # single resonances through temp_used_res, partial_weight with its default combinations
+    actions = []
+    for S in M.subsets(full):
+        actions.append(("set_used_chains(%s)" % (list(S),), "chains", list(S), frozenset(S), True))
+        if len(S) > 1:
+            actions.append(("set_used_chains(%s)" % (list(S)[::-1],), "chains", list(S)[::-1], frozenset(S), False))
+    for R in M.subsets(all_res):
+        rn = [M.nm(sname, r) for r in R]
+        want = frozenset(i for i in full if res_of[i][0] in R)
+        actions.append(("set_used_res(%s)" % (rn,), "res", rn, want, False))
+        actions.append(("with temp_used_res(%s)" % (rn,), "temp_res", rn, want, len(R) == 1))
+    actions.append(("partial_weight(data)", "pw", None, [frozenset([i]) for i in full], True))
+    actions.append(("partial_weight(data, combine=%s)" % (C0305_COMBINE,), "pw", C0305_COMBINE, [frozenset(c) for c in C0305_COMBINE], False))
+
+    for pre, am in pairs:
+        st = _strat(pre, am)
+        tol_text = (_C05_TOL_TEXT % base) if (pre, am) in kin else "rtol %g" % base
+        head = "preprocessor=%s amp_model=%s, chains declared in the order %s: " % (pre, am, " ".join(topo))
+        cl = {
+            "selection_equals_default": head + "with all chains selected (first call) and for every non-empty subset S of the chains selected through set_used_chains (both orders), "
+                                        "set_used_res, temp_used_res or partial_weight, the density returned by the model == the plain eager default density under the same selection; " + tol_text,
+            "selection_equals_partial_sum": head + "for every such selection the density == sum over helicities |sum_{k in S} A_k|^2, A_k the default model's get_amp3 with "
+                                            "only chain k selected (exactly the partial sum of the selected chains, nothing of a deselected one); " + tol_text,
+            "full_restored": head + "after temp_used_res exits, after partial_weight returns and after set_used_chains(all chains, in increasing or decreasing order) the density is the full "
+                             "default density again (also on the following call, the compiled path under use_tf_function); " + tol_text,
+        }
+        ob = {k: "%s/%s/%s" % (label, st, k) for k in cl}
+        for k in cl:
+            acc.declare(ob[k], cl[k])
+        for vname in variants:
+            o = dict(C05_VARIANTS[vname])
+            assert not o.get("lazy_call")
+            if o.get("jit_compile") and not xla:
+                ctx.count(key=(label, pre, am, vname, "skipped"), sample={"skipped": "XLA unavailable", "structure": label, "options": o})
+                continue
+            o.update({"preprocessor": pre, "amp_model": am})
+            cfg = M.build_config(sname, chains=keys, data=o, res_over=res_over)
+            cname = "%s pre=%s amp_model=%s %s" % (label, pre, am, vname)
+            short = short_for is not None and (pre, am) in short_for
+            ctx.count(key=cname, sample={"config": cname, "events": n_ev, "selections": sum(1 for a_ in actions if a_[4] or not short)})
+            base_w = {"config": cname, "config_dict": cfg, "reference_config_dict": ref_cfg, "params_seed": [ctx.seed + 252, ctx.seed + 253],
+                      "library_chain_order": names, "topologies": topo}
+            try:
+                with _quiet():
+                    config, amp = M.load(ctx, cfg)
+                    M.set_params(amp, params)
+                    data = M.cal_data(config, sname, ps)
+                if M.chain_names(amp) != names:
+                    raise RuntimeError("chain order %s differs from the reference model's %s" % (M.chain_names(amp), names))
+            except Exception as ex:  # noqa: BLE001  (a strategy that cannot be built where the default one can does not return the default density)
+                for k in cl:
+                    acc.add(ob[k], cl[k], False, np.inf, dict(base_w, call="build / cal_angle", exception=_exc(ex)))
+                continue
+            rts = rtol if (pre, am) in kin else {fs: np.full_like(r, base) for fs, r in ref_sel.items()}
+
+            def full_check(what, calls=1):
+                for c in range(calls):
+                    w = dict(base_w, call="%s%s" % (what, "" if c == 0 else " (following call)"), selected_chains=full)
+                    try:
+                        with _quiet():
+                            d = np.asarray(amp(data), dtype=float)
+                    except Exception as ex:  # noqa: BLE001
+                        acc.add(ob["full_restored"], cl["full_restored"], False, np.inf, dict(w, exception=_exc(ex)))
+                        continue
+                    _c05_cmp(acc, ob["full_restored"], cl["full_restored"], d, ref_sel[ffull], floor[ffull], rts[ffull], sens[ffull], w, sname, ps)
+
+            def sel_check(what, fs, d):
+                w = dict(base_w, call=what, selected_chains=sorted(fs), selected_chain_names=[names[i] for i in sorted(fs)])
+                _c05_cmp(acc, ob["selection_equals_default"], cl["selection_equals_default"], d, ref_sel[fs], floor[fs], rts[fs], sens[fs],
+                         dict(w, compared_with="plain eager default density under the same selection"), sname, ps)
+                _c05_cmp(acc, ob["selection_equals_partial_sum"], cl["selection_equals_partial_sum"], d, ref_sum[fs], floor[fs], rts[fs], sens[fs],
+                         dict(w, compared_with="sum_helicities |sum of the default model's single-chain get_amp3|^2"), sname, ps)
+
+            try:
+                with _quiet():
+                    d = np.asarray(amp(data), dtype=float)
+                sel_check("first call, all chains selected", ffull, d)
+            except Exception as ex:  # noqa: BLE001
+                for k in ("selection_equals_default", "selection_equals_partial_sum"):
+                    acc.add(ob[k], cl[k], False, np.inf, dict(base_w, call="first call, all chains selected", exception=_exc(ex)))
+            for what, how, arg, want, in_short in actions:
+                if short and not in_short:
+                    continue
+                got = []
+                try:
+                    with _quiet():
+                        if how == "chains":
+                            amp.set_used_chains(list(arg))
+                            got.append((what, want, np.asarray(amp(data), dtype=float)))
+                        elif how == "res":
+                            amp.set_used_res(list(arg))
+                            got.append((what, want, np.asarray(amp(data), dtype=float)))
+                        elif how == "temp_res":
+                            with amp.temp_used_res(list(arg)):
+                                got.append((what, want, np.asarray(amp(data), dtype=float)))
+                        else:
+                            ws = amp.partial_weight(data) if arg is None else amp.partial_weight(data, combine=[list(c) for c in arg])
+                            if len(ws) != len(want):
+                                raise RuntimeError("partial_weight returned %d weights for %d combinations" % (len(ws), len(want)))
+                            for j, (wj, fs) in enumerate(zip(ws, want)):
+                                got.append(("%s[%d]" % (what, j), fs, np.asarray(wj, dtype=float)))
+                except Exception as ex:  # noqa: BLE001  (a selection the default model evaluates must be evaluated by every strategy)
+                    for k in ("selection_equals_default", "selection_equals_partial_sum"):
+                        acc.add(ob[k], cl[k], False, np.inf, dict(base_w, call=what, exception=_exc(ex)))
+                    amp.set_used_chains(full)
+                    continue
+                for w_, fs, d in got:
+                    sel_check(w_, fs, d)
+                if how == "temp_res":
+                    # the density after the block: for the single resonances and the last subset (the state itself is C17's subject)
+                    if len(arg) == 1 or len(arg) == n:
+                        full_check("after " + what + " exited")
+                    else:
+                        ok = list(amp.decay_group.chains_idx) == full
+                        acc.add(ob["full_restored"], cl["full_restored"], ok, 0.0,
+                                None if ok else dict(base_w, call="after " + what + " exited", chains_idx=[int(i) for i in amp.decay_group.chains_idx]))
+                elif how == "pw":
+                    full_check("after " + what + " returned")
+                elif how == "res":
+                    amp.set_used_chains(full)
+                elif len(arg) == n:
+                    full_check("after set_used_chains(%s)" % (list(arg),), calls=2)
+            amp.set_used_chains(full)
+            full_check("after all selections, set_used_chains(%s)" % (full,), calls=2)
+
+
+@group(["C03", "C05"], "iface.C05/selection_interleaved",
+       _C05_FUNCS + ["amp.core:DecayGroup.get_m_dep", "amp.core:DecayGroup.get_factor_angle_amp", "experimental.build_amp:build_params_vector",
+                     "amp.amp:BaseAmplitudeModel.partial_weight", "amp.core:DecayGroup.partial_weight", "amp.core:DecayGroup.set_used_chains",
+                     "amp.core:DecayGroup.set_used_res", "amp.core:DecayGroup.temp_used_res"], env="tf", kind="B",
+       bound="structure (1;1,1,0) with four chains declared in the interleaved topology order (BC)D, (BD)C, (BC)D, (CD)B, 6 LS-coupling products each, no identical "
+             "particles; the 8 compatible (preprocessor, amp_model) pairs with fixed line shapes + cached_shape (thorough: the 5 pairs with a non-default amplitude "
+             "model) with 3 of 4 line shapes floating; eager (thorough: + use_tf_function); every non-empty subset of the chains through set_used_chains in increasing "
+             "and decreasing order (26), every non-empty subset of the resonances through set_used_res and temp_used_res (15 + 15), partial_weight with the default and "
+             "6 explicit combinations (quick: the pairs other than cached_amp, cached_shape, cached_angle+base_factor run the 15 increasing set_used_chains subsets, temp_used_res of the 4 single "
+             "resonances and the default partial_weight only); 24 (quick) / 64 (thorough) seeded phase-space events; one seeded parameter point; tolerance of the C05 density obligations "
+             "(rtol 1e-9, measured conditioning <= 1e-6 for p4_directly, floor 1e-10 x mean)",
+       assumes=["selections are made after the data object was built (what fit fractions and partial-wave plots do)"])
+def c0305_selection(ctx):
+    quick = ctx.tier == "quick"
+    n_ev = 24 if quick else 64
+    xla = False  # no jit_compile variant here (a model with deselected chains is always evaluated eagerly: AbsPDF.__call__ / cached_available)
+    acc = Acc(ctx)
+    for label, sname, res_over, pq, pt in C0305_SEL_ENTRIES:
+        # quick: the pairs whose preprocessor stores per-chain tensors and whose amplitude model reads them (C05_CACHED_CORE: cached_amp, cached_shape,
+        # cached_angle+base_factor) run every selection; the other pairs run the short list (every subset through set_used_chains, temp_used_res
+        # of single resonances, default partial_weight).  thorough: every pair runs every selection.
+        short_for = [pr for pr in C05_PAIRS if pr not in C05_CACHED_CORE] if quick else None
+        _c0305_selection(ctx, acc, label, sname, res_over, pq if quick else pt, ("eager",) if quick else ("eager", "tf"), n_ev, xla, short_for=short_for)
+    acc.flush()
+
+
 # likelihood models ---------------------------------------------------------------------------------
 
 
